@@ -1,6 +1,8 @@
 package checks
 
 import (
+	"sort"
+	"strings"
 	"os"
 	"encoding/json"
 	"fmt"
@@ -60,10 +62,13 @@ func runConcChecks(c *explore.Ctx, id string, drivers []concParams, bound int, p
 				exh = false
 				break
 			}
+			unknown := 0
 			for _, v := range st.Viols {
-				reportConc(c, id, d, v)
+				if !reportConc(c, id, d, v) {
+					unknown++
+				}
 			}
-			if len(st.Viols) > 0 {
+			if unknown > 0 {
 				break
 			}
 			if st.Capped {
@@ -97,6 +102,10 @@ func runConcChecks(c *explore.Ctx, id string, drivers []concParams, bound int, p
 	c.SetExhaustive(exh)
 	c.Coverage["bound"] = bound
 	c.Coverage["worker_crashes"] = pool.Crashes
+	if p := wherePools[id]; p != nil {
+		p.Close()
+		delete(wherePools, id)
+	}
 }
 
 func keysOf(m map[string]int, n int) []string {
@@ -109,13 +118,36 @@ func keysOf(m map[string]int, n int) []string {
 	return out
 }
 
-func reportConc(c *explore.Ctx, id string, d concParams, v explore.DFSViolation) {
+func reportConc(c *explore.Ctx, id string, d concParams, v explore.DFSViolation) bool {
 	eff := "?"
 	if len(v.Viol) > 0 {
 		eff = v.Viol[0]
 	}
-	c.Report(&explore.Violation{Property: id, Sig: map[string]string{
-		"check": "sched", "driver": d.Name, "config": d.Cfg, "verdict": v.Verdict, "effect": eff,
+	blockedAt := ""
+	if v.Verdict != "completed" && c.Viol+c.Known < 50 {
+		// diagnostic re-run of exactly this schedule with call sites recorded
+		d2 := d
+		d2.Where = true
+		t := explore.DFSTask{Scenario: "conc", Params: explore.MustJSON(d2), Prefix: v.Choices, Budget: 0, MaxExecs: 1}
+		wherePool(id).Map([][]byte{explore.MustJSON(t)}, func(_ int, b []byte, err error) {
+			var r explore.DFSResult
+			if err == nil && json.Unmarshal(b, &r) == nil && len(r.Viols) > 0 {
+				v.Blocked = r.Viols[0].Blocked
+			}
+		})
+		var sites []string
+		for _, bl := range v.Blocked {
+			if strings.Contains(bl, "(client") || strings.Contains(bl, "g0(main)") {
+				if j := strings.Index(bl, " at "); j >= 0 && strings.Contains(bl, " blocked ") {
+					sites = append(sites, stripLines(bl[j+4:]))
+				}
+			}
+		}
+		sort.Strings(sites)
+		blockedAt = strings.Join(sites, " | ")
+	}
+	return c.Report(&explore.Violation{Property: id, Sig: map[string]string{
+		"check": "sched", "driver": d.Name, "config": d.Cfg, "verdict": v.Verdict, "effect": eff, "blocked": blockedAt,
 	}, Detail: map[string]any{"task": explore.DFSTask{Scenario: "conc", Params: explore.MustJSON(d), Prefix: v.Choices, Budget: 0, MaxExecs: 1}, "violation": v}})
 }
 
